@@ -15,46 +15,71 @@
 (*                    the cursor from IH-1 to 0; for IH > 1 every later    *)
 (*                    range starts below the store's first height)         *)
 (*   RetryOnError = FALSE    a failed read still advances the cursor       *)
+(*   RestartAtTop = TRUE     a restarted node starts its cursor at the     *)
+(*                    store's height instead of its own chain height: what *)
+(*                    was handed over but not yet applied when the process *)
+(*                    died is never read again                             *)
+(*                                                                         *)
+(* SyncLoop applies handed heights in order (Apply); a crash + restart     *)
+(* (Restart, at most MaxRestarts) forgets what was handed over but not     *)
+(* applied - it lived in channels and caches - while the P2P store and the *)
+(* chain are durable; the new loop starts its cursor at the chain height.  *)
 (***************************************************************************)
 EXTENDS Integers, FiniteSets, TLC
 
-CONSTANTS IH, MaxH, MaxFails, MonotoneCursor, RetryOnError
+CONSTANTS IH, MaxH, MaxFails, MonotoneCursor, RetryOnError, RestartAtTop, MaxRestarts
 
 VARIABLES top,      \* height of the store (0 = empty); it holds IH .. top
           cursor,   \* last height handed to sync
           handed,   \* heights handed to sync
-          fails
-vars == <<top, cursor, handed, fails>>
+          fails,
+          applied,  \* chain height of the node (durable)
+          restarts
+vars == <<top, cursor, handed, fails, applied, restarts>>
 
-Init == top = 0 /\ cursor = IH - 1 /\ handed = {} /\ fails = 0
+Init == top = 0 /\ cursor = IH - 1 /\ handed = {} /\ fails = 0 /\ applied = IH - 1 /\ restarts = 0
 
 \* the sync service appends the next item
 Append == /\ top < MaxH
           /\ top' = IF top = 0 THEN IH ELSE top + 1
-          /\ UNCHANGED <<cursor, handed, fails>>
+          /\ UNCHANGED <<cursor, handed, fails, applied, restarts>>
 
 Readable == cursor + 1 >= IH           \* the store never holds a height below the initial one
 
 \* one wake-up of the loop
 PollNothing == /\ top <= cursor
                /\ cursor' = IF MonotoneCursor THEN cursor ELSE top
-               /\ UNCHANGED <<top, handed, fails>>
+               /\ UNCHANGED <<top, handed, fails, applied, restarts>>
 PollOk == /\ top > cursor /\ Readable
           /\ handed' = handed \cup (cursor + 1) .. top
           /\ cursor' = top
-          /\ UNCHANGED <<top, fails>>
+          /\ UNCHANGED <<top, fails, applied, restarts>>
 PollFail == /\ top > cursor /\ (~Readable \/ fails < MaxFails)
             /\ fails' = IF Readable THEN fails + 1 ELSE fails
             /\ cursor' = IF RetryOnError THEN cursor ELSE top
-            /\ UNCHANGED <<top, handed>>
+            /\ UNCHANGED <<top, handed, applied, restarts>>
 
-Next == Append \/ PollNothing \/ PollOk \/ PollFail
+\* SyncLoop applies the next height once it was handed over
+Apply == /\ applied + 1 \in handed
+         /\ applied' = applied + 1
+         /\ UNCHANGED <<top, cursor, handed, fails, restarts>>
+
+\* the process dies and starts again: handed-but-unapplied events are gone, the cursor restarts at the chain height
+Restart == /\ restarts < MaxRestarts
+           /\ restarts' = restarts + 1
+           /\ handed' = IH .. applied
+           /\ cursor' = IF RestartAtTop THEN (IF top > applied THEN top ELSE applied) ELSE applied
+           /\ UNCHANGED <<top, fails, applied>>
+
+Next == Append \/ PollNothing \/ PollOk \/ PollFail \/ Apply \/ Restart
 Spec == Init /\ [][Next]_vars
-LiveSpec == Spec /\ WF_vars(Append) /\ WF_vars(PollOk) /\ WF_vars(PollNothing) /\ WF_vars(PollFail)
+LiveSpec == Spec /\ WF_vars(Append) /\ WF_vars(PollOk) /\ WF_vars(PollNothing) /\ WF_vars(PollFail) /\ WF_vars(Apply)
 
 \* C02 (P2P ingress): the cursor never falls below the chain's base, everything in the store is handed over
 CursorAboveBase == cursor >= IH - 1
 HandedContiguous == handed = IH .. cursor \/ (handed = {} /\ cursor <= IH - 1)
 NothingSkipped == \A h \in IH .. cursor : h \in handed
 AllHandedEventually == <>[](handed = IH .. MaxH)
+AppliedOnlyHanded == applied <= cursor
+AllAppliedEventually == <>[](applied = MaxH)
 =============================================================================
